@@ -173,6 +173,11 @@ def check_json(case, ctx):
     if case["container"]:
         cls = {"curve": multi.CurveContainer, "surface": multi.SurfaceContainer, "volume": multi.VolumeContainer}[kind]
         target = cls(*objs)
+        if len(objs) >= 2 and len(shapes[0]["P"]) % 2:
+            # the container was looked at before (a loop left after its first element): export still writes all of it
+            for first_ in target:
+                break
+            ctx.label("container-partly-iterated-before-export")
     else:
         target = objs[0]
     ctx.nt(any(len(set(d["size"])) == len(d["size"]) and len(d["size"]) > 1 for d in shapes), "sizes-differ")
